@@ -10,14 +10,14 @@ V = os.path.dirname(os.path.abspath("check"))
 loader = importlib.machinery.SourceFileLoader("vcheck", os.path.join(V, "check"))
 spec = importlib.util.spec_from_loader("vcheck", loader); m = importlib.util.module_from_spec(spec); loader.exec_module(m)
 work = os.path.join(V, ".work", "setup"); os.makedirs(work, exist_ok=True)
-seen = set()
 for c in m.load_checks()["checks"]:
+    seen = set()
     for p in c["parts"]:
         key = (p["pkg"], bool(p.get("shim")), bool(p.get("race")))
         if key in seen: continue
         seen.add(key)
-        ov = m.build_overlay(work, shim=key[1])
-        m.build_test_binary(work, ov, p["pkg"], p.get("tags", "verif"), race=key[2], suffix=("_shim" if key[1] else "") + ("_race" if key[2] else ""))
+        ov = m.build_overlay(work, shim=key[1], prop=c["id"])
+        m.build_test_binary(work, ov, p["pkg"], p.get("tags", "verif"), race=key[2], suffix="_" + c["id"] + ("_shim" if key[1] else "") + ("_race" if key[2] else ""))
 import shutil; shutil.rmtree(work, ignore_errors=True)
 print("setup ok")
 PY
